@@ -263,6 +263,10 @@ pub(crate) fn me() -> TaskId {
 pub fn me_usize() -> usize {
     usize::from(me())
 }
+/// Id of the running task, or `None` outside an execution (never panics).
+pub fn try_me_usize() -> Option<usize> {
+    ExecutionState::try_with(|s| s.try_current().map(|t| usize::from(t.id()))).ok().flatten()
+}
 /// Message of the panic that ends an execution whose step bound is exhausted.
 pub const STEP_BOUND_MSG: &str = "SIMRT-STEP-BOUND exhausted";
 
